@@ -38,6 +38,11 @@ COMMON_TB = [
 
 PROPS = {
     "C06": {
+        "design_ref": "6.4/C06",
+        "technique": "Lean 4 proof over a tree model of SubjectRouter (nested inductive, recursion on the remaining pattern) for an arbitrary regex matcher: notify = filter of the flat key list by level-wise match, count = matched keys holding a subject, preserved through every history + three-way differential correspondence on SubjectRouter and ConcurrentSubjectRouter over six argument signatures",
+        "level_text": "Machine-checked proof, for every well-formed tree, every pattern (concrete, wildcard, regex at any level, with the regex matcher an arbitrary parameter) and every history of subscribe/unsubscribe/invalidate/shrink/notify from the empty router, that notify's delivery log is exactly the observers stored under the keys that have as many levels as the pattern and match it level by level (each valid observer once, with the passed value), that the returned count is the number of matched keys holding a subject, that stored keys are pairwise different and children stay ordered, and that with fresh observer ids no observer occurs twice in a log. Argument passing through the templates (by value, const reference, several arguments, by-value class) is outside the model and is covered by the correspondence run on the real code for both router classes.",
+        "level_note": "Trusted: Lean kernel; transcription of SubjectRouter.{h,cpp}, RoutingLevelView, RoutingKeyBuilder; std::map/forward_list/set/function as modelled; std::regex is an abstract matcher in the theorems (the tie covers literal . * + ? [set] | ( )); the reinterpret_cast of Subject<> is UB outside the model; delivery order across keys is compared as a multiset.",
+
         "lean_modules": ["Tulz.Props.C06"],
         "theorems": ["Tulz.C06_flat_nodup", "Tulz.C06_notify", "Tulz.C06_notify_ids_once", "Tulz.C06_history", "Tulz.C06_history_sorted", "Tulz.C06_history_once"],
         "trusted_base": COMMON_TB,
@@ -45,6 +50,11 @@ PROPS = {
                         "callbacks do not call back into the router (re-entrancy is C10)"],
     },
     "C13": {
+        "design_ref": "6.4/C13",
+        "technique": "Lean 4 proof over the same router tree model: shrink leaves every later delivery log unchanged, exact characterisation of the keys it removes, exists = some stored key matches, prefix-closedness and depth, for every history and an arbitrary matcher + three-way differential correspondence with probe notifies, exists on the whole key universe and depth after every shrink",
+        "level_text": "Machine-checked proof, for every tree, every pair of patterns and an arbitrary regex matcher, that shrink never changes which observers any later notify reaches, that a key survives a shrink iff it is the root or something at or below it still has a subscription or the pattern does not visit the parent of every stored key at or below it (so only dead keys along the pattern are removed, live keys are kept, and a full-depth wildcard shrink removes every dead branch), that exists(pattern) is true exactly when some stored key matches level by level, that stored keys are prefix-closed, and that depth() is one more than the longest stored key; well-formedness holds after every history. Tied to SubjectRouter.cpp by running model, Python oracle (non-recursive statement of the same characterisation) and both real router classes on generated histories with probes after every shrink.",
+        "level_note": "Trusted: as C06; an invalidated observer counts as live until a notify removes it (the code's notion); handles whose node was erased by shrink dangle by design and are never used again.",
+
         "lean_modules": ["Tulz.Props.C13"],
         "theorems": ["Tulz.C13_shrink_invisible", "Tulz.C13_shrink_exact", "Tulz.C13_keeps_live", "Tulz.C13_removes_only",
                      "Tulz.C13_full_wildcard", "Tulz.C13_exists", "Tulz.C13_prefix_closed", "Tulz.C13_depth", "Tulz.C13_history"],
@@ -621,9 +631,10 @@ def run_tie(prop, spec, tier, seed):
             if t[1] in ("notify", "shrink", "exists"):
                 shape = re.sub(r"\d+", "o", tree)           # stored keys + number/validity of observers, ids abstracted
                 distinct.add((t[1], pattern_kind(t[2]), shape))
-    res.evaluations = len(cases)
+    # one evaluation = one operation applied to one router state on all three sides (a case is a history of ~30 of them)
+    res.evaluations = sum(opcount.values())
     res.distinct = len(distinct)
-    res.rule = ("cases = corpus (%d) + %d hand-written histories (the repo's own test scenarios, F5 shapes, prefix/equal-name collisions, lazy removal, "
+    res.rule = ("evaluations = operations executed and compared (histories are listed under input_distribution.cases); cases = corpus (%d) + %d hand-written histories (the repo's own test scenarios, F5 shapes, prefix/equal-name collisions, lazy removal, "
                 "short shrinks) for both router classes + seeded random valid histories (subscribe f/p, unsubscribe incl. stale handles, invalidate, notify, "
                 "shrink followed by the probe set [snap over the key universe, %d wildcard notifies, exists], exists, depth) over colliding level names, "
                 "one argument signature and one router class per history; distinct_nontrivial = distinct (op in {notify,shrink,exists}, pattern shape "
